@@ -5,7 +5,7 @@ fakes for the duration of a run.  Fake processes: new -> alive -> zombie -> reap
 until is_alive()/join() polls it; os.kill on a zombie succeeds, on a reaped or foreign pid raises
 ProcessLookupError - POSIX behaviour).  The fake sleep(1) is the tick driver.
 
-History (JSON): list of ticks; tick = {"die": [slots], "sig": ["HUP"|"INT"|"TERM"|"FC", ...],
+History (JSON): list of ticks; tick = {"die": [slots], "exit0": [slots that exit with status 0], "sig": ["HUP"|"INT"|"TERM"|"FC", ...],
                                       "mid": [[k, sig], ...]}   # deliver sig at the k-th fake call of the tick
 plus "startup_deaths": indexes (in order of Process.start() calls) of processes that exit during start-up, and
 "slow": [[start index, seconds]] - processes that need that long to exit after terminate() (a worker finishing
@@ -73,6 +73,11 @@ class FP:
         self.state = "new"            # new -> alive -> (terminating ->) zombie -> reaped
         self.shutdown_s = 0.0         # seconds the process needs to exit after terminate()
         self.remaining = 0.0
+        self.code = 1                 # exit status once dead (0 = the worker function returned / sys.exit(0))
+
+    @property
+    def exitcode(self) -> Any:
+        return None if self.state in ("new", "alive", "terminating") else self.code
 
     def start(self) -> None:
         self.w.point("start")
@@ -166,6 +171,7 @@ class World:
             for p in self.procs:
                 if p.slot == i and p.state == "alive":
                     p.state = "zombie"
+                    p.code = 0 if i in ev.get("exit0", ()) else 1
                     self.trace.append(["die", i, p.pid])
         for sg in ev.get("sig", ()):
             self.deliver(sg)
